@@ -533,7 +533,8 @@ impl GlobalInferenceCtx<'_> {
                 self.replace_weak_tys(body, new_ty);
             }
             Expr::Deref { pointer } => {
-                let mutable = self.tys[self.loc].expr_tys[expr]
+                // the pointer keeps its own mutability, whatever it points to
+                let mutable = self.tys[self.loc].expr_tys[pointer]
                     .as_pointer()
                     .map(|(mutable, _)| mutable)
                     .unwrap_or_default();
